@@ -38,6 +38,42 @@ theorem single_fault (o : Opts) (tid sid ns nr : UInt16) (pre post : List Bytes)
   rw [h1, h3, h2]
   rfl
 
+/-- the same for every flag word the options accept, with stray octets inside the Length and anything behind the
+    message: `Err([x])`, the reader behind the declared length -/
+theorem single_fault_general (o : Opts) (fx fy : UInt8) (hw : FlagsOk o (word16 fx fy)) (tid sid ns nr : UInt16)
+    (pre post : List Bytes) (bad : Bytes) (x : DErr) (junk : Bytes) (hj : junk.length < 6) (rest : Bytes)
+    (hwd : ∀ r ∈ pre ++ bad :: post, WellDelimited r)
+    (hsize : 12 + ((pre ++ bad :: post).flatten ++ junk).length ≤ 65535)
+    (hpre : ∀ r ∈ pre, isOk (resultOf r) = true) (hpost : ∀ r ∈ post, isOk (resultOf r) = true)
+    (hbad : resultOf bad = .error x)
+    (hfirst : firstBad ((pre ++ bad :: post).map resultOf) = false) :
+    (decode o : M Bytes (List DErr) Msg) (messageW fx fy tid sid ns nr ((pre ++ bad :: post).flatten ++ junk) rest) =
+      .err [x] rest := by
+  obtain ⟨hd, _, _⟩ := control_error_list_general o fx fy hw tid sid ns nr (pre ++ bad :: post) hwd junk hj rest hsize
+    hfirst ⟨bad, by simp, by rw [hbad]; rfl⟩
+  rw [hd]
+  congr 1
+  rw [List.map_append, List.map_cons, resErrors_append]
+  have h1 : resErrors (pre.map resultOf) = [] := resErrors_good _ (fun r hr => by
+    obtain ⟨y, hy, rfl⟩ := List.mem_map.mp hr; exact hpre y hy)
+  have h2 : resErrors (post.map resultOf) = [] := resErrors_good _ (fun r hr => by
+    obtain ⟨y, hy, rfl⟩ := List.mem_map.mp hr; exact hpost y hy)
+  have h3 : resErrors (resultOf bad :: post.map resultOf) = x :: resErrors (post.map resultOf) := by
+    rw [hbad]; rfl
+  rw [h1, h3, h2]
+  rfl
+
+/-- a record spelled out: first octet, length octet, vendor id, attribute type, value -/
+def rec6 (a b : UInt8) (v t : UInt16) (p : Bytes) : Bytes := a :: b :: (be16 v ++ be16 t ++ p)
+
+theorem resultOf_rec6 (a b : UInt8) (v t : UInt16) (p : Bytes) : resultOf (rec6 a b v t p) = recordResult a v t p := by
+  simp [rec6, resultOf, be16, word16_be16]
+
+theorem wellDelimited_rec6 (a b : UInt8) (v t : UInt16) (p : Bytes) (h : hdrLen a b = 6 + p.length) :
+    WellDelimited (rec6 a b v t p) :=
+  ⟨a, b, UInt8.ofNat (v.toNat / 256), UInt8.ofNat (v.toNat % 256), UInt8.ofNat (t.toNat / 256), UInt8.ofNat (t.toNat % 256),
+    p, by simp [rec6, be16], h⟩
+
 /-! ### what each kind of fault makes of the record it sits in (the error carries the offending value) -/
 
 /-- an attribute type the table does not know: `UnknownAvp(t)` -/
@@ -87,6 +123,32 @@ theorem fault_bad_utf8 (a : UInt8) (t : UInt16) (p : Bytes) (hH : a.toNat / 2 % 
      rw [leafStr_ne hp, hv, e]
      rfl)
 
+/-- … the optional message of a Result Code AVP (a known error type in front of it): `InvalidUtf8(1)` … -/
+theorem fault_bad_utf8_result_code (a : UInt8) (code x : UInt16) (m : Bytes) (hH : a.toNat / 2 % 2 = 0)
+    (hx : (ErrorType.ofCode x).isSome = true) (hm : m ≠ []) (hv : Spec.Utf8.valid m = false) :
+    recordResult a 0 1 (be16 code ++ be16 x ++ m) = .error (.invalidUtf8 1) := by
+  unfold recordResult
+  rw [if_neg (by simp), if_neg (by omega)]
+  simp only [be16, List.cons_append, List.nil_append, decodeAvp]
+  show (match (readResultCode : M Bytes DErr AVP) _ with | .ok x _ => _ | .err e _ => _ | .fault _ => _) = _
+  rw [readResultCode_cons_long, word16_be16, word16_be16]
+  obtain ⟨et, het⟩ := Option.isSome_iff_exists.mp hx
+  have hl : m.length ≠ 0 := by intro h; exact hm (List.eq_nil_of_length_eq_zero h)
+  simp [rcErrorSpec, het, hl, hv]
+
+/-- … and the optional advisory of a Q.931 Cause Code AVP: `InvalidUtf8(12)`.  With `fault_bad_utf8` these are all six
+    places where the decoder checks text. -/
+theorem fault_bad_utf8_q931 (a : UInt8) (cause : UInt16) (msg : UInt8) (adv : Bytes) (hH : a.toNat / 2 % 2 = 0)
+    (hm : adv ≠ []) (hv : Spec.Utf8.valid adv = false) :
+    recordResult a 0 12 (be16 cause ++ msg :: adv) = .error (.invalidUtf8 12) := by
+  unfold recordResult
+  rw [if_neg (by simp), if_neg (by omega)]
+  simp only [be16, List.cons_append, List.nil_append, decodeAvp]
+  show (match (readQ931 : M Bytes DErr AVP) _ with | .ok x _ => _ | .err e _ => _ | .fault _ => _) = _
+  rw [readQ931_cons]
+  have hl : adv.length ≠ 0 := by intro h; exact hm (List.eq_nil_of_length_eq_zero h)
+  simp [hl, hv]
+
 /-- minimum payload each kind's format needs -/
 def minLen : Nat → Nat
   | 0 | 1 | 2 | 6 | 9 | 10 | 14 | 29 | 32 => 2
@@ -128,6 +190,13 @@ theorem fault_truncated (t : UInt16) (p : Bytes) (ht : t.toNat ≤ 38) (h20 : t.
          subst hp0
          first | exact leafBytes_nil _ _ | exact leafStr_nil _ _)
 
+/-- the same one level up: the record such a payload sits in yields `IncompleteAVP(t)` (H bit clear, vendor 0) -/
+theorem fault_truncated_record (a : UInt8) (t : UInt16) (p : Bytes) (hH : a.toNat / 2 % 2 = 0) (ht : t.toNat ≤ 38)
+    (h20 : t.toNat ≠ 20) (hp : p.length < minLen t.toNat) :
+    recordResult a 0 t p = .error (.incompleteAVP t) := by
+  unfold recordResult
+  rw [if_neg (by simp), if_neg (by omega), fault_truncated t p ht h20 hp]
+
 /-- a bad version nibble, with version checking on: `InvalidVersion(v)` whatever follows -/
 theorem fault_version (o : Opts) (x y : UInt8) (t : Bytes) (ho : o.version = true) (hv : version (word16 x y) ≠ 2) :
     (decode o : M Bytes (List DErr) Msg) (x :: y :: t) = .err [.invalidVersion (version (word16 x y))] t := by
@@ -145,6 +214,17 @@ theorem fault_offset (d : Data) (n : UInt16) (hoff : d.offset = some n) (hn : d.
   simp only [hoff, skipOffset, bind_apply, len_apply, len_bytes, M.ite_apply, fail_apply]
   rw [if_pos hn]
 
+/-- … as the *whole* decoder reports it, under every option set: `Err([InvalidOffset(n)])`, alone, carrying the
+    offset size, for the encoder's own image of such a message (any priority, Length, Ns/Nr) -/
+theorem fault_offset_decode (o : Opts) (d : Data) (n : UInt16) (hoff : d.offset = some n) (hn : d.data.length < n.toNat) :
+    (decode o : M Bytes (List DErr) Msg) (dataImage d) = .err [.invalidOffset n] d.data := by
+  rw [dataImage_eq]
+  simp only [be16, List.cons_append, List.nil_append]
+  rw [decode_cons, word16_be16]
+  rw [if_neg (by simp [mkFlags_version]), if_neg (by simp [mkFlags_reservedOk]), if_neg (by simp [mkFlags_isControl])]
+  unfold liftE
+  rw [fault_offset d n hoff hn]
+
 /-! ### rendering -/
 
 /-- for AVP-related errors the text shows the name of the kind this attribute number actually decodes to … -/
@@ -154,6 +234,67 @@ theorem name_matches_dispatch (t : UInt16) (p r : Bytes) (a : AVP)
   have hnh := decodeAvp_not_hidden t p r a h
   rw [← hattr]
   cases a <;> first | rfl | (simp [AVP.isHidden] at hnh)
+
+/-- unconditionally: every non-hidden AVP value renders under the name of its own kind … -/
+theorem name_of_kind (a : AVP) (h : a.isHidden = false) : avpName a.attr = kindName a := by
+  cases a <;> first | rfl | (simp [AVP.isHidden] at h)
+
+/-- … and every assigned attribute type (0..39 except 20) *is* the type of some non-hidden AVP value that the
+    dispatch decodes — so `name_matches_dispatch` speaks about all 39 rows of the table, not about none -/
+theorem assigned_has_value (t : UInt16) (ht : t.toNat < 40) (h20 : t.toNat ≠ 20) :
+    ∃ a p, a.attr = t ∧ a.isHidden = false ∧ (decodeAvp t : M Bytes DErr AVP) p = .ok a [] := by
+  have e : t = UInt16.ofNat t.toNat := by simp
+  have hk : t.toNat = 0 ∨ t.toNat = 1 ∨ t.toNat = 2 ∨ t.toNat = 3 ∨ t.toNat = 4 ∨ t.toNat = 5 ∨ t.toNat = 6 ∨ t.toNat = 7 ∨
+      t.toNat = 8 ∨ t.toNat = 9 ∨ t.toNat = 10 ∨ t.toNat = 11 ∨ t.toNat = 12 ∨ t.toNat = 13 ∨ t.toNat = 14 ∨ t.toNat = 15 ∨
+      t.toNat = 16 ∨ t.toNat = 17 ∨ t.toNat = 18 ∨ t.toNat = 19 ∨ t.toNat = 21 ∨ t.toNat = 22 ∨ t.toNat = 23 ∨
+      t.toNat = 24 ∨ t.toNat = 25 ∨ t.toNat = 26 ∨ t.toNat = 27 ∨ t.toNat = 28 ∨ t.toNat = 29 ∨ t.toNat = 30 ∨
+      t.toNat = 31 ∨ t.toNat = 32 ∨ t.toNat = 33 ∨ t.toNat = 34 ∨ t.toNat = 35 ∨ t.toNat = 36 ∨ t.toNat = 37 ∨
+      t.toNat = 38 ∨ t.toNat = 39 := by omega
+  rcases hk with h | h | h | h | h | h | h | h | h | h | h | h | h | h | h | h | h | h | h | h | h | h | h | h | h | h | h | h |
+    h | h | h | h | h | h | h | h | h | h | h
+  all_goals
+    rw [h] at e
+    rw [e]
+  · exact ⟨.messageType .hello, [0, 6], by decide, rfl, by decide⟩
+  · exact ⟨.resultCode 1 none, [0, 1], by decide, rfl, by decide⟩
+  · exact ⟨.protocolVersion 1 0, [1, 0], by decide, rfl, by decide⟩
+  · exact ⟨.framingCapabilities 1, [0, 0, 0, 1], by decide, rfl, by decide⟩
+  · exact ⟨.bearerCapabilities 1, [0, 0, 0, 1], by decide, rfl, by decide⟩
+  · exact ⟨.tieBreaker 1, [0, 0, 0, 0, 0, 0, 0, 1], by decide, rfl, by decide⟩
+  · exact ⟨.firmwareRevision 1, [0, 1], by decide, rfl, by decide⟩
+  · exact ⟨.hostName [0x61], [0x61], by decide, rfl, by decide⟩
+  · exact ⟨.vendorName [0x61], [0x61], by decide, rfl, by decide⟩
+  · exact ⟨.assignedTunnelId 1, [0, 1], by decide, rfl, by decide⟩
+  · exact ⟨.receiveWindowSize 1, [0, 1], by decide, rfl, by decide⟩
+  · exact ⟨.challenge [0x61], [0x61], by decide, rfl, by decide⟩
+  · exact ⟨.q931CauseCode 1 2 none, [0, 1, 2], by decide, rfl, by decide⟩
+  · exact ⟨.challengeResponse 0 1, [0, 0, 0, 0, 0, 0, 0, 0, 0, 0, 0, 0, 0, 0, 0, 1], by decide, rfl, by decide⟩
+  · exact ⟨.assignedSessionId 1, [0, 1], by decide, rfl, by decide⟩
+  · exact ⟨.callSerialNumber 1, [0, 0, 0, 1], by decide, rfl, by decide⟩
+  · exact ⟨.minimumBps 1, [0, 0, 0, 1], by decide, rfl, by decide⟩
+  · exact ⟨.maximumBps 1, [0, 0, 0, 1], by decide, rfl, by decide⟩
+  · exact ⟨.bearerType 1, [0, 0, 0, 1], by decide, rfl, by decide⟩
+  · exact ⟨.framingType 1, [0, 0, 0, 1], by decide, rfl, by decide⟩
+  · exact ⟨.calledNumber [0x61], [0x61], by decide, rfl, by decide⟩
+  · exact ⟨.callingNumber [0x61], [0x61], by decide, rfl, by decide⟩
+  · exact ⟨.subAddress [0x61], [0x61], by decide, rfl, by decide⟩
+  · exact ⟨.txConnectSpeed 1, [0, 0, 0, 1], by decide, rfl, by decide⟩
+  · exact ⟨.physicalChannelId 1, [0, 0, 0, 1], by decide, rfl, by decide⟩
+  · exact ⟨.initialReceivedLcpConfReq [0x61], [0x61], by decide, rfl, by decide⟩
+  · exact ⟨.lastSentLcpConfReq [0x61], [0x61], by decide, rfl, by decide⟩
+  · exact ⟨.lastReceivedLcpConfReq [0x61], [0x61], by decide, rfl, by decide⟩
+  · exact ⟨.proxyAuthenType .pppChap, [0, 2], by decide, rfl, by decide⟩
+  · exact ⟨.proxyAuthenName [0x61], [0x61], by decide, rfl, by decide⟩
+  · exact ⟨.proxyAuthenChallenge [0x61], [0x61], by decide, rfl, by decide⟩
+  · exact ⟨.proxyAuthenId 1, [0, 1], by decide, rfl, by decide⟩
+  · exact ⟨.proxyAuthenResponse [0x61], [0x61], by decide, rfl, by decide⟩
+  · exact ⟨.callErrors 0 0 0 0 0 1, [0, 0, 0, 0, 0, 0, 0, 0, 0, 0, 0, 0, 0, 0, 0, 0, 0, 0, 0, 0, 0, 0, 0, 0, 0, 1], by decide, rfl,
+      by decide⟩
+  · exact ⟨.accm 0 1, [0, 0, 0, 0, 0, 0, 0, 0, 0, 1], by decide, rfl, by decide⟩
+  · exact ⟨.randomVector 1, [0, 0, 0, 1], by decide, rfl, by decide⟩
+  · exact ⟨.privateGroupId [0x61], [0x61], by decide, rfl, by decide⟩
+  · exact ⟨.rxConnectSpeed 1, [0, 0, 0, 1], by decide, rfl, by decide⟩
+  · exact ⟨.sequencingRequired, [], by decide, rfl, by decide⟩
 
 /-- … and the number itself when the attribute type is unassigned -/
 theorem name_unassigned (t : UInt16) (h : t.toNat = 20 ∨ 40 ≤ t.toNat) : avpName t = toString t.toNat := by
@@ -174,5 +315,30 @@ theorem render_nonempty (e : DErr) : display e ≠ "" := by
 example : display (.incompleteAVP 12) = "Incomplete AVP (Q931CauseCode)" := by decide
 example : display (.invalidUtf8 20) = "AVP (20) with invalid UTF-8 string payload" := by decide
 example : recordResult 1 0 20 [1, 2] = .error (.unknownAvp 20) := by decide
+
+/-- `single_fault` composed with `fault_vendor`: a vendor-specific record injected behind a good Message Type AVP, in a
+    message with a non-canonical flag word and a trailer, is reported as `Err([UnsupportedVendorId(9)])` and nothing
+    else — every hypothesis of `single_fault_general` instantiated at once -/
+theorem injected_vendor_fault (o : Opts) (fx fy : UInt8) (hw : FlagsOk o (word16 fx fy)) (tid sid ns nr : UInt16)
+    (a : UInt8) (v t : UInt16) (hv : v ≠ 0) (rest : Bytes) :
+    (decode o : M Bytes (List DErr) Msg)
+        (messageW fx fy tid sid ns nr (([[1, 8, 0, 0, 0, 0, 0, 6]] ++ rec6 (a % 64) 7 v t [0x61] :: []).flatten ++ []) rest) =
+      .err [.unsupportedVendorId v] rest := by
+  have ha : (a % 64).toNat = a.toNat % 64 := by simp
+  have hl : hdrLen (a % 64) 7 = 6 + [(0x61 : UInt8)].length := by
+    unfold hdrLen; rw [ha]; have := a.toNat_lt; simp
+  refine single_fault_general o fx fy hw tid sid ns nr [[1, 8, 0, 0, 0, 0, 0, 6]] [] _ _ [] (by simp) rest ?_ ?_ ?_ ?_ ?_ ?_
+  · intro r hr
+    simp only [List.cons_append, List.nil_append, List.mem_cons, List.mem_nil_iff, or_false] at hr
+    rcases hr with rfl | rfl
+    · exact ⟨1, 8, 0, 0, 0, 0, [0, 6], rfl, by decide⟩
+    · exact wellDelimited_rec6 _ _ _ _ _ hl
+  · simp [rec6, be16]
+  · intro r hr
+    simp only [List.mem_cons, List.mem_nil_iff, or_false] at hr
+    subst hr; decide
+  · intro r hr; simp at hr
+  · rw [resultOf_rec6]; exact fault_vendor _ _ _ _ hv
+  · rfl
 
 end Rl2tp.C20
